@@ -142,7 +142,7 @@ func (ctx *dynamicHeaderReader) setAndExpandLitLenHuffCode() error {
 
 	max := ctx.nextCode[maxHuffTreeDepth] + uint32(ctx.litCount[maxHuffTreeDepth])
 
-	if max > (1 << maxHuffTreeDepth) {
+	if !completeCode(max, ctx.litCount[1]) {
 		return errInvalidBlock
 	}
 
